@@ -399,13 +399,39 @@ def c20_execute(trace, tier, res):
         # reach the goal (nothing is compromised any more) and is not
         # counted; whatever reaches the goal is held against the bound.
         fx = core.stream(seed, "faults2")
-        variants = [(pi, plan, None) for pi, plan in enumerate(plans)]
+        variants = [(pi, plan, None, None) for pi, plan in enumerate(plans)]
         for pi, plan in enumerate(plans[:3]):
             if len(plan) >= 3:
-                variants.append((pi, plan, fx.randint(1, len(plan) - 1)))
-        for pi, plan, cut in variants:
+                variants.append((pi, plan, fx.randint(1, len(plan) - 1),
+                                 "reject"))
+        for pi, plan in enumerate(plans[:2]):
+            if len(plan) >= 3:
+                # the agent continues the episode with a copy of the
+                # environment (deep copy / pickle round trip) from some point
+                variants.append((pi, plan, fx.randint(1, len(plan) - 1),
+                                 fx.choice(["deepcopy", "pickle"])))
+        for pi, plan, cut, vkind in variants:
             sim.exec_op({"op": "reset"})
-            if cut is not None:
+            if vkind in ("deepcopy", "pickle"):
+                counters.hit("fault.restart.deepcopy_fork")
+                total = 0.0
+                done = False
+                # ... and, not trusting the copy, plays the whole plan again
+                # on it (on a faithful copy the repeated part is pure cost)
+                seq = [(a, False) for a in plan[:cut]] + \
+                    [(a, j == 0) for j, a in enumerate(plan)]
+                for a, fork_first in seq:
+                    if fork_first:
+                        sim.exec_op({"op": "fork", "how": vkind,
+                                     "orig_steps": 0})
+                    sim.exec_op({"op": "step", "a": a,
+                                 "u": [float(0.0).hex()]})
+                    out = sim.record[-1][1]
+                    total += out["reward"]
+                    done = out["done"]
+                    res["ops"] += 1
+                plan = []          # played above; judged below
+            elif cut is not None:
                 counters.hit("fault.rejected_reset_mid_episode")
                 for a in plan[:cut]:
                     sim.exec_op({"op": "step", "a": a,
@@ -415,8 +441,9 @@ def c20_execute(trace, tier, res):
                                                "int64"])})
                 sim.exec_op({"op": "reset"})
                 plan = plan[cut:]
-            total = 0.0
-            done = False
+            if vkind not in ("deepcopy", "pickle"):
+                total = 0.0
+                done = False
             for a in plan:
                 sim.exec_op({"op": "step", "a": a,
                              "u": [float(0.0).hex()]})
